@@ -347,7 +347,9 @@ def gen_mutation(rng, kind, idx):
             muts.append(['devices', ['append', dict(base, name='zz2')]])
         return muts
     if kind == 'bad_driver':
-        return [['peripherals', ['insert', idx, {'driver': 'no.such.Driver', 'name': 'zzp', 'dummy_param': 'x'}]]]
+        # an entry whose driver cannot be loaded, at position k >= 1 (gen_job makes sure the backup has a peripheral before it)
+        return [['peripherals', ['insert', max(1, idx), {'driver': rng.choice(['no.such.Driver', 'tests.qtoggleserver.mock.peripherals.Nope']),
+                                                          'name': 'zzp', 'dummy_param': 'x'}]]]
     raise ValueError(kind)
 
 
@@ -373,6 +375,8 @@ def gen_job(rng):
         kind = rng.choice(MUTATIONS)
         job['mutate'] = gen_mutation(rng, kind, rng.randint(0, 5))
         job['mutation_kind'] = kind
+        if kind == 'bad_driver' and not any(op[0] == 'post_peripheral' for op in job['source']):
+            job['source'].insert(0, ['post_peripheral', {'driver': MOCK_DRIVER, 'dummy_param': 'first', 'name': 'pa'}])
     return job
 
 
@@ -475,6 +479,14 @@ def oracle(job, res):
                 out.append(({'document': 'ports', 'aspect': 'valid-backup-rejected', 'error': o[2] if o[0] == 'api' else o[1],
                              'field': (o[3].get('field') if o[0] == 'api' else None)},
                             'PUT /ports rejected an unaltered backup: %s' % json.dumps(o[1:])))
+    if 'devices' in put and put['devices'][0] != 'ok':
+        o = put['devices']
+        sent = res['sent']['devices']
+        n = len(sent) if isinstance(sent, list) else 0
+        idx_ = o[3].get('index') if o[0] == 'api' else None
+        if not (isinstance(idx_, int) and 0 <= idx_ < n) and isinstance(sent, list) and all(isinstance(e, dict) for e in sent):
+            out.append(({'document': 'devices', 'aspect': 'error-names-entry', 'error': o[2] if o[0] == 'api' else o[1]},
+                        'PUT /devices was rejected with %s, which does not name the failing entry' % json.dumps(o[1:])))
     if 'device' in put:
         o = put['device']
         before, after, src = res['tgt']['device'], res['after']['device'], res['src']['device']
@@ -487,6 +499,22 @@ def oracle(job, res):
                 out.append(({'document': 'device', 'aspect': 'round-trip', 'attribute': keys[0]}, 'device differs under %s' % ', '.join(keys)))
         elif o[0] != 'ok' and 'device' not in mutated:
             out.append(({'document': 'device', 'aspect': 'valid-backup-rejected'}, 'PUT /device rejected an unaltered backup: %s' % json.dumps(o[1:])))
+    if 'peripherals' in put and put['peripherals'][0] != 'ok':
+        o = put['peripherals']
+        sent = res['sent']['peripherals']
+        params = o[3] if o[0] == 'api' else {}
+        n = len(sent) if isinstance(sent, list) else 0
+        idents = [json.dumps(e.get(k)) for e in (sent if isinstance(sent, list) else []) if isinstance(e, dict) for k in ('id', 'name') if e.get(k)]
+        named = (isinstance(params.get('index'), int) and 0 <= params['index'] < n) or \
+            any(json.dumps(params.get(k)) in idents for k in ('id', 'name') if k in params)
+        if not named:
+            after_p = [e.get('id') for e in res['after']['peripherals'] if isinstance(e, dict) and not e.get('static')]
+            port_ids = [e.get('id') for e in res['after']['ports'] if isinstance(e, dict)]
+            bare = [p for p in after_p if isinstance(p, str) and not any(isinstance(i, str) and i.startswith(p + '.') for i in port_ids)]
+            out.append(({'document': 'peripherals', 'aspect': 'error-names-entry', 'error': o[2] if o[0] == 'api' else o[1]},
+                        'PUT /peripherals was rejected with %s, which does not name the failing entry; switches after it: polling %s, '
+                        'events %s; peripherals left: %s, of which without ports: %s' % (
+                            json.dumps(o[1:]), flags['peripherals'][0], flags['peripherals'][1], after_p, bare)))
     for name in ('devices', 'peripherals'):
         if name not in put:
             continue
